@@ -197,6 +197,18 @@ extern "C" void harness_noclip() {
   verif_reach();
 }
 
+// C11.b: ClipperD::Execute(NoClip) returns true and EMPTIES both solutions whatever they held before
+extern "C" void harness_noclip_d() {
+  ClipperD c(2);
+  c.AddSubject(mk_d(0.0, 0.0));
+  PathsD closed = mk_d(5.0, 5.0), open = mk_d(6.0, 6.0);      // containers reused from an earlier call
+  bool ok = c.Execute(ClipType::NoClip, (FillRule)nd_int(0, 3), closed, open);
+  VA(ok); VA(closed.empty() && open.empty());
+  PolyTreeD t; PathsD open2 = mk_d(7.0, 7.0);
+  VA(c.Execute(ClipType::NoClip, (FillRule)nd_int(0, 3), t, open2)); VA(t.Count() == 0 && open2.empty());
+  verif_reach();
+}
+
 extern "C" void selftest_args() {
   for (int p = -8; p <= 8; ++p) { out_i64(same_double(std::pow(10, p), P10[p + 8])); out_i64(std::ilogb(P10[p + 8]) == ILOG10[p + 8]); }   // table contracts of stub_pow / stub_ilogb
   for (int k = -30; k <= 30; k += 7) out_i64(same_double(std::pow(2, k), pow2i(k)));
@@ -204,4 +216,24 @@ extern "C" void selftest_args() {
   Paths64 o = ScalePaths<int64_t, double>(in, 100.0, ec); out_i64(o[0][0].x); out_i64(o[0][0].y); out_i64(ec);
   PathsD big = mk_d(1e19, 0); o = ScalePaths<int64_t, double>(big, 100.0, ec); out_i64(o.size()); out_i64(ec);
   ClipperD cd(2); out_f64(cd.scale_); ClipperD ce(-3); out_f64(ce.scale_); ClipperD cf(0); out_f64(cf.scale_);
+}
+
+// C16.c: PolyTreeD has the shape of the PolyTree64 of the scaled input, node for node (whole pipeline, concrete geometry whose
+// raw output ring needs a self-intersection repair that creates an additional OutRec while the tree is being built)
+static int count_nodes64(const PolyPath64& p) { int n = 1; for (size_t i = 0; i < p.Count(); ++i) n += count_nodes64(*p[i]); return n; }
+static int count_nodesD(const PolyPathD& p) { int n = 1; for (size_t i = 0; i < p.Count(); ++i) n += count_nodesD(*p[i]); return n; }
+extern "C" void harness_treed_shape() {
+  const int64_t X[5] = {4, 3, 8, 11, 0}, Y[5] = {1, 0, 8, 4, 8};
+  ClipperD cd(0);                                   // precision 0: scale 2
+  PathsD sd(1); Paths64 s64(1);
+  for (int i = 0; i < 5; ++i) { sd[0].push_back(PointD((double)X[i] * 0.5, (double)Y[i] * 0.5)); s64[0].push_back(Point64(X[i], Y[i])); }
+  cd.AddSubject(sd);
+  PolyTreeD td; VA(cd.Execute(ClipType::Union, FillRule::EvenOdd, td));
+  Clipper64 c64; c64.AddSubject(s64);
+  PolyTree64 t64; VA(c64.Execute(ClipType::Union, FillRule::EvenOdd, t64));
+  VA(count_nodes64(t64) == count_nodesD(td));
+  VA(t64.Count() == td.Count());
+  for (size_t i = 0; i < 4; ++i) { if (i >= t64.Count()) break; VA(t64[i]->Polygon().size() == td[i]->Polygon().size()); VA(t64[i]->Count() == td[i]->Count());
+    for (size_t k = 0; k < 8; ++k) { if (k >= t64[i]->Polygon().size()) break; VA((double)t64[i]->Polygon()[k].x * 0.5 == td[i]->Polygon()[k].x && (double)t64[i]->Polygon()[k].y * 0.5 == td[i]->Polygon()[k].y); } }
+  verif_reach();
 }
